@@ -31,6 +31,8 @@ RULES = {
     "C01-b": "TYPESTATE: constructors store only elements with a callable run / the given first element; failures raise LenaTypeError",
     "C01-c": "Source.__call__ feeds first()/first into the tail and does not skip a non-empty tail",
     "C01-d": "flatten keeps element order",
+    "C01-h": "IDENTITY: alter_sequence returns the object it was given on every path that has not found an element altering it "
+             "(Split and Source rely on getting a typed sequence back, not its flattened elements)",
     "C01-f": "GENERATOR FRAME: no flow-processing function hands a callable to map/filter/itertools over its flow -- a user "
              "callable is applied inside a Python generator, where an escaping StopIteration becomes RuntimeError instead of "
              "silently ending the flow",
@@ -548,7 +550,48 @@ def check_capable_by_type(ctx):
     ctx.instances_floor("C01-g", n, 1, "isinstance tests that license a protocol call on a stored object")
 
 
+def check_alter_identity(ctx):
+    """C01-h.  Split.__init__ / Source pass each branch through alter_sequence and classify what comes back by its type.
+    alter_sequence flattens its argument to look for elements that alter it; when none does, the argument itself has to be
+    returned: the flattened copy of Sequence(a, Sequence(Sum())) is a bare collection, which is classified by content --
+    a 'sequence' branch becomes a fill_compute one and yields once at the end instead of once per block."""
+    fn = ctx.tree.func("lena.core.meta", "alter_sequence")
+    par = A.func_params(fn)[0]
+    # aliases of the argument taken before the parameter is rebound
+    rebind = [st for st in fn.body if isinstance(st, ast.Assign) and any(isinstance(t, ast.Name) and t.id == par for t in st.targets)]
+    first_rebind = min([st.lineno for st in rebind] or [10 ** 9])
+    orig = {par} if not rebind else set()
+    for st in fn.body:
+        if isinstance(st, ast.Assign) and isinstance(st.value, ast.Name) and st.value.id == par and st.lineno < first_rebind:
+            orig |= {t.id for t in st.targets if isinstance(t, ast.Name)}
+    n = 0
+    for p in P.paths_of(fn):
+        if p.end != "return":
+            continue
+        r = [x for x in p.stmts() if isinstance(x, ast.Return)][-1]
+        v = r.value
+        n += 1
+        if isinstance(v, ast.Name) and v.id in orig:
+            ctx.ok("C01-h", r, "alter_sequence returns its argument [%s]" % p.describe(2))
+        elif isinstance(v, ast.Call):
+            ctx.ok("C01-h", r, "alter_sequence returns what an altering element made [%s]" % p.describe(2))
+        elif isinstance(v, ast.Name):
+            altered = any(isinstance(t, ast.Name) and pol and any(
+                isinstance(a, ast.Assign) and isinstance(a.value, ast.Constant) and a.value.value is True and
+                any(isinstance(x, ast.Name) and x.id == t.id for x in a.targets) for a in A.walk_local(fn)) for t, pol in p.literals())
+            ctx.check("C01-h", altered, r, "alter_sequence returns `%s` -- the flattened copy of its argument -- on the path [%s], on which "
+                      "no element has altered the sequence: the caller gets a bare collection of elements instead of the typed sequence it "
+                      "passed (Split classifies it by content, so Sequence(a, Sequence(Sum())) becomes a fill_compute branch and yields "
+                      "once at the end instead of per block)" % (v.id, p.describe(4)),
+                      detail="alter_sequence returns a rebuilt sequence only where it was altered [%s]" % p.describe(2),
+                      construct="alter-returns-copy:%s" % p.describe(2), path=p)
+        else:
+            ctx.unknown("C01-h", r, "alter_sequence returns `%s`, which the rule cannot relate to its argument" % A.short(v, 40))
+    ctx.instances_floor("C01-h", n, 3, "return paths of alter_sequence")
+
+
 def check(ctx):
+    check_alter_identity(ctx)
     check_capable_by_type(ctx)
     check_generator_frame(ctx)
     check_transparent_errors(ctx)
@@ -561,6 +604,7 @@ def check(ctx):
 
 
 VARIANTS = [
+    M("alter-sequence-returns-flattened", "lena/core/meta.py", "            return el.alter_sequence(el)\n        else:\n            return orig_seq", "            return el.alter_sequence(el)\n        else:\n            return seq", ["C01-h"]),
     M("runif-any-lenasequence", "lena/flow/elements.py", "isinstance(args[0], lena.core.Sequence)", "isinstance(args[0], lena.core.LenaSequence)", ["C01-g"]),
     M("flatten-stack-unreversed-push", "lena/core/meta.py", "    for el in seq:\n        if isinstance(el, lena_sequence.LenaSequence):\n            flattened.extend(flatten(el))", "    stack = list(seq)[::-1]\n    while stack:\n        el = stack.pop()\n        if isinstance(el, lena_sequence.LenaSequence):\n            stack.extend(el)", ["C01-d"]),
     TW("flatten-stack-reversed-push", "lena/core/meta.py", "    for el in seq:\n        if isinstance(el, lena_sequence.LenaSequence):\n            flattened.extend(flatten(el))", "    stack = list(seq)[::-1]\n    while stack:\n        el = stack.pop()\n        if isinstance(el, lena_sequence.LenaSequence):\n            stack.extend(reversed(list(el)))"),
